@@ -29,6 +29,7 @@ func checkC03(c *Ctx) {
 	c.Rule("C03/R3", "the iteration-count fast path cannot overflow: for each word size the digit-count bound d of the unchecked path satisfies 10^d-1 <= MaxInt of that size; everything else goes to the checked parser")
 	c.Rule("C03/R4", "exponent range check: in the decimal-to-bits conversion every increase of the binary exponent is followed, before the bits are assembled, by the test against the format's exponent limit (otherwise out-of-range text yields a silent Inf/garbage instead of a range error)")
 
+	c.Rule("C03/R9", "iteration counts are decimal: Atoi hands the text it does not parse itself to ParseInt with base 10 and bit size 0 (base 0 would read 0x10, 0b1, 0o7, a leading 0 as octal and underscores)")
 	c.Rule("C03/R8", "infinities and NaN: the port's recogniser accepts exactly strconv's spellings (optional sign on inf/infinity, none on nan), comparing the whole input with the literal, and maps each to the same value")
 	c.Rule("C03/R7", "mantissas longer than the 800-digit decimal buffer keep their magnitude: the counter of dropped integer digits in decimal.set grows exactly for an unstored digit before the decimal point, and every decimal point position taken from the stored digit count adds it (the one place where the port is deliberately more correct than strconv's slow path)")
 	c.Rule("C03/R6", "saturation contract between the integer parsers: every range-error return of ParseUint carries (1<<bitSize)-1, which ParseInt (which ignores that error) needs in order to re-derive the range error from its cutoff comparison")
@@ -42,6 +43,7 @@ func checkC03(c *Ctx) {
 	c03Saturate(c, p)
 	c03Dropped(c, p)
 	c03Special(c, p)
+	c03Decimal(c, p)
 	if c.Tier == "thorough" {
 		if c.override == nil {
 			c03Drift(c, p)
@@ -1181,4 +1183,30 @@ func c03Special(c *Ctx, p *Prog) {
 	}
 	sort.Strings(missing)
 	c.Check(len(missing) == 0, R, "special:all-spellings", site, "every spelling strconv accepts is accepted", fmt.Sprintf("the spellings %v, which strconv accepts, are not recognised", missing))
+}
+
+// c03Decimal (C03/R9).
+func c03Decimal(c *Ctx, p *Prog) {
+	const R = "C03/R9"
+	fn := p.Fn("benchfmt/internal/bytesconv", "Atoi")
+	if fn == nil {
+		c.Undecided(R, "anchor:Atoi", "", "not found")
+		return
+	}
+	n := 0
+	eachInstr(fn, func(_ *ssa.BasicBlock, in ssa.Instruction) {
+		call, ok := in.(*ssa.Call)
+		if !ok {
+			return
+		}
+		sc := call.Call.StaticCallee()
+		if sc == nil || sc.Pkg != fn.Pkg || (sc.Name() != "ParseInt" && sc.Name() != "ParseUint") || len(call.Call.Args) != 3 {
+			return
+		}
+		n++
+		base, ok1 := constInt(call.Call.Args[1])
+		bits, ok2 := constInt(call.Call.Args[2])
+		c.Check(ok1 && ok2 && base == 10 && bits == 0, R, fmt.Sprintf("Atoi:%s#%d", sc.Name(), n), p.pos(call.Pos()), "base 10, bit size 0", fmt.Sprintf("Atoi's slow path parses with base %d (constant: %v) and bit size %d: an iteration count of 19 or more characters is then read with a base guessed from its prefix (0000000000000000000100 becomes 64, 0x…10 and 1_000_… are accepted) instead of the decimal integer written", base, ok1, bits))
+	})
+	c.Floor(R, "integer parser calls in Atoi", n, 1)
 }
